@@ -1,0 +1,125 @@
+//! Read-only verification accessors (compiled only with `--cfg daachorse_verif`).
+
+use alloc::vec::Vec;
+
+use super::mapper::INVALID_CODE;
+use super::{CharwiseDoubleArrayAhoCorasick, DEAD_STATE_IDX, ROOT_STATE_IDX};
+pub use crate::bytewise::verif::{VerifRaw, VerifStep};
+use crate::utils::FromU32;
+
+impl<V> CharwiseDoubleArrayAhoCorasick<V>
+where
+    V: Copy,
+{
+    /// Returns a copy of the internal tables.
+    #[must_use]
+    pub fn verif_raw(&self) -> VerifRaw {
+        let table = self.mapper.verif_table();
+        VerifRaw {
+            base: self
+                .states
+                .iter()
+                .map(|s| s.base().map_or(0, core::num::NonZeroU32::get))
+                .collect(),
+            check: self.states.iter().map(super::State::check).collect(),
+            fail: self.states.iter().map(super::State::fail).collect(),
+            output_pos: self
+                .states
+                .iter()
+                .map(|s| s.output_pos().map_or(0, core::num::NonZeroU32::get))
+                .collect(),
+            out_len: self.outputs.iter().map(|o| o.length()).collect(),
+            out_parent: self
+                .outputs
+                .iter()
+                .map(|o| o.parent().map_or(0, core::num::NonZeroU32::get))
+                .collect(),
+            mapper: table
+                .iter()
+                .enumerate()
+                .filter(|(_, &code)| code != INVALID_CODE)
+                .map(|(c, &code)| (u32::try_from(c).unwrap(), code))
+                .collect(),
+            mapper_len: u32::try_from(table.len()).unwrap(),
+            alphabet_size: self.mapper.alphabet_size(),
+            match_kind: u8::from(self.match_kind),
+            num_states: self.num_states,
+        }
+    }
+
+    /// Returns the value of the `i`-th output record.
+    #[must_use]
+    pub fn verif_output_value(&self, i: usize) -> V {
+        self.outputs[i].value()
+    }
+
+    /// Returns the code the mapper assigns to `c`.
+    #[must_use]
+    pub fn verif_map(&self, c: char) -> Option<u32> {
+        self.mapper.get(c)
+    }
+
+    /// Calls the implementation's own child lookup for an arbitrary state and mapped code after
+    /// checking that every index it will read is in range.
+    #[must_use]
+    pub fn verif_child_code(&self, state_id: u32, mapped_c: u32) -> VerifStep {
+        let len = self.states.len();
+        if usize::from_u32(state_id) >= len {
+            return VerifStep::Oob;
+        }
+        if let Some(base) = self.states[usize::from_u32(state_id)].base() {
+            if usize::from_u32(base.get() ^ mapped_c) >= len {
+                return VerifStep::Oob;
+            }
+        }
+        // All indices read by child_index_unchecked() have been checked above.
+        match unsafe { self.child_index_unchecked(state_id, mapped_c) } {
+            Some(x) => VerifStep::Some(x),
+            None => VerifStep::None,
+        }
+    }
+
+    /// Calls the implementation's own transition function for an arbitrary state after a
+    /// bounds-checked dry run of the same walk.
+    #[must_use]
+    pub fn verif_next_state(&self, state_id: u32, c: char, leftmost: bool) -> VerifStep {
+        if let Some(mapped_c) = self.mapper.get(c) {
+            let mut s = state_id;
+            let mut fuel = self.states.len() + 1;
+            loop {
+                match self.verif_child_code(s, mapped_c) {
+                    VerifStep::Oob => return VerifStep::Oob,
+                    VerifStep::Some(_) => break,
+                    VerifStep::None => {}
+                }
+                if s == ROOT_STATE_IDX {
+                    break;
+                }
+                let f = self.states[usize::from_u32(s)].fail();
+                if leftmost && f == DEAD_STATE_IDX {
+                    break;
+                }
+                if usize::from_u32(f) >= self.states.len() {
+                    return VerifStep::Oob;
+                }
+                if fuel == 0 {
+                    return VerifStep::None;
+                }
+                fuel -= 1;
+                s = f;
+            }
+        } else if usize::from_u32(state_id) >= self.states.len() {
+            return VerifStep::Oob;
+        }
+        let (p, h) = crate::verif_hooks::counters();
+        let r = unsafe {
+            if leftmost {
+                self.next_state_id_leftmost_unchecked(state_id, c)
+            } else {
+                self.next_state_id_unchecked(state_id, c)
+            }
+        };
+        crate::verif_hooks::restore(p, h);
+        VerifStep::Some(r)
+    }
+}
